@@ -360,7 +360,13 @@ func (usi *UnrotatedSegmentInfo) DoCMICheckForUnrotated(currQuery *structs.Searc
 	if isRange {
 		err = usi.doRangeCheckForCols(timeFilteredBlocks, rangeFilter, rangeOp, colsToCheck, qid)
 	} else if !wildcardValue {
-		err = usi.doBloomCheckForCols(timeFilteredBlocks, bloomWords, originalBloomWords, bloomOp, colsToCheck, qid)
+		// A negated match filter (NOT word) selects the records that do NOT
+		// contain the word: a block whose bloom lacks the word cannot be
+		// excluded (doCmiChecks does the same for rotated segments).
+		negateMatch := currQuery != nil && currQuery.MatchFilter != nil && currQuery.MatchFilter.NegateMatch
+		if !negateMatch {
+			err = usi.doBloomCheckForCols(timeFilteredBlocks, bloomWords, originalBloomWords, bloomOp, colsToCheck, qid)
+		}
 	}
 
 	numFinalBlocks := uint64(len(timeFilteredBlocks))
